@@ -41,6 +41,7 @@ func init() {
 func (r *bucketRegistry) registerBucket(bucket *Bucket) (bool, *Bucket) {
 	name := bucket.GetName()
 	debug("_registerBucket %v %s at %s", bucket, name, bucket.url)
+	verifLock(&r.lock, "reg.register")
 	r.lock.Lock()
 	defer r.lock.Unlock()
 
@@ -54,6 +55,7 @@ func (r *bucketRegistry) registerBucket(bucket *Bucket) (bool, *Bucket) {
 
 // getCachedBucket returns a bucket from the registry if it exists.
 func (r *bucketRegistry) getCachedBucket(name, url string, mode OpenMode) (*Bucket, error) {
+	verifLock(&r.lock, "reg.get")
 	r.lock.Lock()
 	defer r.lock.Unlock()
 	bucket := r.buckets[name]
@@ -75,6 +77,7 @@ func (r *bucketRegistry) getCachedBucket(name, url string, mode OpenMode) (*Buck
 func (r *bucketRegistry) unregisterBucket(bucket *Bucket) {
 	name := bucket.name
 	debug("UNregisterBucket %v %s at %s", bucket, name, bucket.url)
+	verifLock(&r.lock, "reg.unregister")
 	r.lock.Lock()
 	defer r.lock.Unlock()
 
@@ -99,6 +102,7 @@ func (r *bucketRegistry) unregisterBucket(bucket *Bucket) {
 // deleteBucket deletes a bucket from the registry and disk. Closes all existing buckets of the same name.
 func (r *bucketRegistry) deleteBucket(ctx context.Context, bucket *Bucket) error {
 	name := bucket.name
+	verifLock(&r.lock, "reg.delete")
 	r.lock.Lock()
 	defer r.lock.Unlock()
 
@@ -112,6 +116,7 @@ func (r *bucketRegistry) deleteBucket(ctx context.Context, bucket *Bucket) error
 
 // getBucketNames returns a list of all bucket names in the bucketRegistry.
 func (r *bucketRegistry) getBucketNames() []string {
+	verifLock(&r.lock, "reg.names")
 	r.lock.Lock()
 	defer r.lock.Unlock()
 
